@@ -72,4 +72,25 @@ def reqOf (dec : Wire.Dec) (ks : Wire.KeySet) (data : Bytes) (fv encw : Nat) : R
   | .panic => reqNone data.length fv .panic
   | .fuel => reqNone data.length fv .panic
 
+/-- octets of the framed NTS authenticator fields (type 0x0404) in an item stream -/
+def encItems : List Wire.Item → Nat
+  | [] => 0
+  | .field _ ty _ wl :: r => (if ty = Wire.tyEncrypted then wl else 0) + encItems r
+  | _ :: r => encItems r
+
+/-- `Req.encw` computed from the datagram itself: the wire lengths of the NTS authenticator fields the parser's
+    field streamer frames (NTPv4 / NTPv5; NTPv3 packets have no extension fields) -/
+def encwOf (data : Bytes) : Nat :=
+  match data with
+  | [] => 0
+  | b0 :: _ =>
+    let v := (b0.toNat / 8) % 8
+    if v = 4 then encItems (Wire.stream (data.drop 48) (Wire.macCutoff .v4) Gen.EF_V4_UNENCRYPTED_MINIMUM_SIZE .v4)
+    else if v = 5 then encItems (Wire.stream (data.drop 48) (Wire.macCutoff .v5) Gen.EF_V4_UNENCRYPTED_MINIMUM_SIZE .v5)
+    else 0
+
+/-- the request record for a datagram, every component computed from the bytes -/
+def reqOfB (dec : Wire.Dec) (ks : Wire.KeySet) (data : Bytes) (fv : Nat) : Req :=
+  reqOf dec ks data fv (encwOf data)
+
 end NtpVerif.Server
